@@ -1032,6 +1032,10 @@ for _pid in ["C01", "C02", "C03", "C04", "C05", "C06", "C07", "C08", "C09", "C10
        _generic.rename_locals)
     ok(_pid, "every two-armed if flipped to `if not c: B else: A`", _generic.flip_branches)
     ok(_pid, "keyword arguments of every call in reverse order", _generic.reverse_kwargs)
+    ok(_pid, "operands of every comparison swapped (a < b -> b > a, a == b -> b == a)",
+       _generic.swap_comparisons)
+    ok(_pid, "renaming, branch flipping, comparison swapping and keyword reversal combined",
+       _generic.all_rewrites)
 
 ok("C02", "selector locals renamed in Tempo._influence", _multi(
     _sub(TE, "tmp_deg_positions", "positions_pair", count=100)))
@@ -1140,6 +1144,12 @@ ok("C01", "PT-TEMPO grow-phase separation via a temporary", _sub(
 ok("C01", "PT-TEMPO end phase as a rearranged inequality", _sub(
     PTB, "end_phase = bool(self._step > self._num_steps - self._num_infl + 1)",
     "end_phase = self._num_steps - self._num_infl + 1 < self._step"))
+brk("C01", "dkmax from the ceiling of the unrounded quotient tcut/dt", "N3", _sub(
+    TE, "tmp_dkmax = int(np.ceil(np.round(tcut/dt)))", "tmp_dkmax = int(np.ceil(tmp_tcut/dt))"))
+brk("C01", "dkmax from truncating the quotient tcut/dt", "N3", _sub(
+    TE, "tmp_dkmax = int(np.ceil(np.round(tcut/dt)))", "tmp_dkmax = int(tcut/dt)"))
+ok("C01", "dkmax from the rounded quotient without the redundant ceil", _sub(
+    TE, "tmp_dkmax = int(np.ceil(np.round(tcut/dt)))", "tmp_dkmax = int(np.round(tmp_tcut/dt))"))
 ok("C01", "tcut from dt*dkmax", _sub(TE, "        tmp_tcut = dkmax * dt", "        tmp_tcut = dt * dkmax"))
 def _eta_memo(key: str, ret: str):
     return _multi(
@@ -1248,6 +1258,205 @@ ok("C02", "PtTempo casts dk to int before asking for the influence", _sub(
     "        dk = int(dk)\n        return influence_matrix(\n            dk,\n            parameters=self._parameters,"))
 brk("C11", "eta_function memo leaves the matsubara flag out of the key", "K6",
     _eta_memo("(tau, epsrel, subdiv_limit)", "-integral"))
+# ---------------------------------------- memo of half-step generators (C08 H5 / C20 A7)
+def _gen_memo(key: str):
+    return _multi(
+        _sub(SY, "        self._propagator_derivatives = propagator_derivatives\n        super().__init__(dimension, name, description)\n",
+             "        self._propagator_derivatives = propagator_derivatives\n        self._generators = {}\n        super().__init__(dimension, name, description)\n"),
+        _sub(SY, "    def get_propagators(\n            self,\n            dt: float,\n            parameters: ndarray) -> Callable[[int], Tuple[ndarray,ndarray]]:",
+             "    def _halfstep_generator(self, dt, parameters):\n"
+             f"        key = {key}\n"
+             "        if key not in self._generators:\n"
+             "            self._generators[key] = self.liouvillian(*tuple(parameters))*dt/2.0\n"
+             "        return self._generators[key]\n\n"
+             "    def get_propagators(\n            self,\n            dt: float,\n            parameters: ndarray) -> Callable[[int], Tuple[ndarray,ndarray]]:"),
+        _sub(SY, "            pre_liou=self.liouvillian(*(list(parameters[2*step][:])))\n            post_liou=self.liouvillian(*(list(parameters[2*step+1][:])))\n            first_step = expm(pre_liou*dt/2.0)\n            second_step = expm(post_liou*dt/2.0)\n",
+             "            pre_gen=self._halfstep_generator(dt, parameters[2*step][:])\n            post_gen=self._halfstep_generator(dt, parameters[2*step+1][:])\n            first_step = expm(pre_gen)\n            second_step = expm(post_gen)\n"))
+
+
+brk("C08", "half-step generators memoised by the parameters only (dt missing in the key)", "H5",
+    _gen_memo("tuple(parameters)"))
+brk("C20", "half-step generators memoised by the parameters only (dt missing in the key)", "A7",
+    _gen_memo("tuple(parameters)"))
+ok("C08", "half-step generators memoised by (dt, parameters)", _gen_memo("(dt, tuple(parameters))"))
+ok("C20", "half-step generators memoised by (dt, parameters)", _gen_memo("(dt, tuple(parameters))"))
+
+# ---------------------------------------- setters keep copies (C03 M6 / C20 A8)
+brk("C03", "set_mpo_tensor keeps the caller's buffer (np.asarray)", "M6", _sub(
+    PT, "        self._mpo_tensors[step] = np.array(tensor, dtype=NpDtype)", "        self._mpo_tensors[step] = np.asarray(tensor, dtype=NpDtype)"))
+brk("C20", "set_cap_tensor keeps the caller's buffer (np.asarray)", "A8", _sub(
+    PT, "        self._cap_tensors[step] = np.array(tensor, dtype=NpDtype)", "        self._cap_tensors[step] = np.asarray(tensor, dtype=NpDtype)"))
+brk("C03", "set_mpo_tensor stores the argument itself", "M6", _sub(
+    PT, "        self._mpo_tensors[step] = np.array(tensor, dtype=NpDtype)", "        self._mpo_tensors[step] = tensor"))
+ok("C03", "set_mpo_tensor copies explicitly", _sub(
+    PT, "        self._mpo_tensors[step] = np.array(tensor, dtype=NpDtype)", "        self._mpo_tensors[step] = np.array(tensor, dtype=NpDtype, copy=True)"))
+# ---------------------------------------- carried values of the mean-field stepping loop (C09 F4)
+_MF_INIT = _sub(SD, '    title = "--> Compute dynamics with field:"\n',
+                '    title = "--> Compute dynamics with field:"\n    field = initial_field\n'
+                '    previous_state_list = parsed_parameters_dict["initial_state"]\n')
+_MF_OLD = """            if step == 0:
+                field = initial_field
+            else:
+                field = compute_field(
+                    t - dt, dt, previous_state_list, field, state_list)
+            previous_state_list = state_list
+            if record_all:
+"""
+ok("C09", "field and previous states set up before the loop, Heun update under `step > 0`", _multi(
+    _MF_INIT, _sub(SD, _MF_OLD, """            if step > 0:
+                field = compute_field(
+                    t - dt, dt, previous_state_list, field, state_list)
+            previous_state_list = state_list
+            if record_all:
+""")))
+brk("C09", "previous states only renewed when all steps are recorded", "F4", _multi(
+    _MF_INIT, _sub(SD, _MF_OLD, """            if step > 0:
+                field = compute_field(
+                    t - dt, dt, previous_state_list, field, state_list)
+            if record_all:
+                previous_state_list = state_list
+""")))
+brk("C09", "previous states renewed only every other step", "F4", _sub(
+    SD, "            previous_state_list = state_list\n            if record_all:\n",
+    "            if step % 2 == 0:\n                previous_state_list = state_list\n            if record_all:\n"))
+# ---------------------------------------- einsum spellings of the basis change (C05 E4 / C16 X5)
+_TIN_S = """            tensor = np.dot(np.moveaxis(tensor, -2, -1),
+                            self._transform_in.T)
+            tensor = np.moveaxis(tensor, -1, -2)
+"""
+_TIN_F = """                tensor = np.dot(np.moveaxis(tensor, -2, -1),
+                                self._transform_in.T)
+                tensor = np.moveaxis(tensor, -1, -2)
+"""
+_EINSUM_OK = _multi(
+    _sub(PT, _TIN_S, '            tensor = np.einsum("abij,ki->abkj", tensor, self._transform_in)\n'),
+    _sub(PT, _TIN_F, '                tensor = np.einsum("abij,ki->abkj", tensor, self._transform_in)\n'),
+    _sub(PT, "            tensor = np.dot(tensor, self._transform_out)\n",
+         '            tensor = np.einsum("abij,jk->abik", tensor, self._transform_out)\n'),
+    _sub(PT, "                tensor = np.dot(tensor, self._transform_out)\n",
+         "                tensor = tensor @ self._transform_out\n"))
+for _pid in ("C05", "C16", "C03"):
+    ok(_pid, "basis change of the MPO tensors written with einsum / @ in both classes", _EINSUM_OK)
+brk("C05", "file-backed get_mpo_tensor contracts the wrong index of transform_in (einsum)", "E4", _multi(
+    _sub(PT, _TIN_F, '                tensor = np.einsum("abij,ik->abkj", tensor, self._transform_in)\n')))
+brk("C16", "file-backed get_mpo_tensor contracts the wrong index of transform_in (einsum)", "X5", _multi(
+    _sub(PT, _TIN_F, '                tensor = np.einsum("abij,ik->abkj", tensor, self._transform_in)\n')))
+brk("C05", "in-memory get_mpo_tensor applies transform_out to the input leg", "E4", _sub(
+    PT, "            tensor = np.dot(tensor, self._transform_out)\n",
+    '            tensor = np.einsum("abij,ik->abkj", tensor, self._transform_out)\n'))
+
+# ---------------------------------------- caps of rank-3 tensors (C03 M7 / C04 D6)
+brk("C03", "rank-3 cap closed with trace_in instead of trace_square", "M7", _sub(
+    PT, "                ten[2] ^ trace_square[0]\n                new_cap = ten @ last_cap @ trace_square",
+    "                ten[2] ^ trace_in[0]\n                new_cap = ten @ last_cap @ trace_in"))
+brk("C04", "rank-3 cap closed with trace_in instead of trace_square", "D6", _sub(
+    PT, "                ten[2] ^ trace_square[0]\n                new_cap = ten @ last_cap @ trace_square",
+    "                ten[2] ^ trace_in[0]\n                new_cap = ten @ last_cap @ trace_in"))
+brk("C03", "file-backed caps built from raw tensors without a rank branch", "M7", _sub(
+    PT, "            ten = tn.Node(self.get_mpo_tensor(step))\n            ten[1] ^ last_cap[0]",
+    "            ten = tn.Node(self.get_mpo_tensor(step, transformed=False))\n            ten[1] ^ last_cap[0]"))
+
+# ---------------------------------------- loop-carried values in compute_correlations_nt (C07 V8)
+brk("C07", "the ordering mask narrows a last_times array shared by all schedule entries", "V8", _multi(
+    _sub(SD, "    num_steps = len(schedule)\n    title = \"--> Compute correlations:\"",
+         "    num_steps = len(schedule)\n    last_times = schedule[0][-1]\n    title = \"--> Compute correlations:\""),
+    _sub(SD, "            last_times = schedule[i][-1]\n", "")))
+
+# ---------------------------------------- bond matrices in a gap (C10 I7)
+brk("C10", "bond matrices inside a gap of skipped sites dropped", "I7", _sub(
+    TEBDB, """                gam_tr = self._full_trace_gammas[i].copy()
+                lam = self._lambdas[i+1].copy()
+                m[1] ^ gam_tr[0]
+                gam_tr[1] ^ lam[0]
+                m = m @ gam_tr @ lam
+""", """                gam_tr = self._full_trace_gammas[i].copy()
+                m[1] ^ gam_tr[0]
+                m = m @ gam_tr
+            if b > a+1:
+                lam = self._lambdas[b].copy()
+                m[1] ^ lam[0]
+                m = m @ lam
+"""))
+ok("C10", "gap loop written over the bonds a+2..b", _sub(
+    TEBDB, """            for i in range(a+1, b):
+                gam_tr = self._full_trace_gammas[i].copy()
+                lam = self._lambdas[i+1].copy()
+""", """            for j in range(a+2, b+1):
+                gam_tr = self._full_trace_gammas[j-1].copy()
+                lam = self._lambdas[j].copy()
+"""))
+# ---------------------------------------- degeneracy classes by pairwise comparison (C06 R2)
+def _pairwise(rtol: str):
+    return _sub(BA, "    mat = np.array(matrix).round(decimals=DEFAULT_TOLERANCE_DEGENERACY)\n    return_map = np.unique(mat.T,return_inverse=True,axis=0)[1]\n",
+                "    rows = np.array(matrix).T\n    atol = 10.0**(-DEFAULT_TOLERANCE_DEGENERACY)\n"
+                f"    close = np.isclose(rows[:, np.newaxis, :], rows[np.newaxis, :, :], atol=atol{rtol}).all(axis=-1)\n"
+                "    first_match = np.argmax(close, axis=1)\n    return_map = np.unique(first_match, return_inverse=True)[1]\n")
+
+
+brk("C06", "degeneracy classes by np.isclose with its default relative tolerance", "R2", _pairwise(""))
+ok("C06", "degeneracy classes by pairwise comparison with an absolute tolerance only", _pairwise(", rtol=0"))
+# ---------------------------------------- vectorised scatter of the dk=0 influence (C02 S5 / C06 R1)
+_PT_SCATTER = """                    for i1 in range(self._dimension**2):
+                        tmp_mpo[west_degeneracy_map[i1]][i1]\\
+                            [north_degeneracy_map[i1]] = \\
+                            infl[north_degeneracy_map[i1]]
+                        tmp_mps[i1][north_degeneracy_map[i1]] = \\
+                            infl[north_degeneracy_map[i1]]/ scale
+"""
+_VEC_BAD = """                    north_vals, north_positions = np.unique(
+                        north_degeneracy_map, return_index=True)
+                    tmp_mpo[west_degeneracy_map[north_positions],
+                            north_positions,
+                            north_vals] = infl[north_vals]
+                    tmp_mps[north_positions, north_vals] = \\
+                        infl[north_vals] / scale
+"""
+_VEC_OK = """                    basis = np.arange(self._dimension**2)
+                    tmp_mpo[west_degeneracy_map, basis, north_degeneracy_map] = \\
+                        infl[north_degeneracy_map]
+                    tmp_mps[basis, north_degeneracy_map] = \\
+                        infl[north_degeneracy_map] / scale
+"""
+brk("C02", "PT-TEMPO fills one representative per degeneracy class only (vectorised scatter)", "S5",
+    _sub(PTB, _PT_SCATTER, _VEC_BAD))
+brk("C06", "PT-TEMPO fills one representative per degeneracy class only (vectorised scatter)", "R1",
+    _sub(PTB, _PT_SCATTER, _VEC_BAD))
+ok("C02", "PT-TEMPO scatter vectorised over all basis elements", _sub(PTB, _PT_SCATTER, _VEC_OK))
+ok("C06", "PT-TEMPO scatter vectorised over all basis elements", _sub(PTB, _PT_SCATTER, _VEC_OK))
+# ---------------------------------------- class membership of degenerate levels (C11 K7)
+brk("C11", "Gibbs back end keeps only the first level of each degeneracy class", "K7", _sub(
+    TB, """        inverse = array([[int(i == j) for i in inverse] for j in indices])
+        return indices, inverse""", """        projector = eye(len(vals), dtype=int)[indices]
+        return indices, projector"""))
+ok("C11", "membership matrix by broadcasting instead of nested comprehensions", _sub(
+    TB, """        inverse = array([[int(i == j) for i in inverse] for j in indices])
+        return indices, inverse""", """        labels = array(inverse)
+        member = (labels[None, :] == indices[:, None]).astype(int)
+        return indices, member"""))
+
+# ---------------------------------------- both parts of the numerical cell integral (C12 L7)
+brk("C12", "imaginary part of the numerical cell integral skipped for 'real' functions", "L7", _multi(
+    _sub(BC, "            complex(tmp_correlation_function(1.0))\n",
+         "            tmp_value = tmp_correlation_function(1.0)\n            complex(tmp_value)\n"),
+    _sub(BC, "        int_imag = integrate.dblquad(", "        if not np.iscomplexobj(self.correlation_function(1.0)):\n            return int_real + 0.0j\n        int_imag = integrate.dblquad(")))
+
+# ---------------------------------------- traces recomputed only when missing (C14 T7 / C20 A7b)
+_TR_GUARD = _sub(TEBDB, '        """Compute current traces of the augmented MPS. """\n        self.clear_traces()\n',
+                 '        """Compute current traces of the augmented MPS. """\n        if self._total_trace is not None:\n            return\n')
+brk("C14", "chain traces recomputed only when missing, never reset by the gates", "T7", _TR_GUARD)
+brk("C20", "chain traces recomputed only when missing, never reset by the gates", "A7b", _TR_GUARD)
+# ---------------------------------------- Control keeps its own copy (C20 A8)
+brk("C20", "Control.add_single stores the caller's array itself", "A8", _sub(
+    CT, "        control_operation = np.array(control_operation, dtype=NpDtype)\n", ""))
+brk("C20", "Control.add_single converts with np.asarray", "A8", _sub(
+    CT, "        control_operation = np.array(control_operation, dtype=NpDtype)\n",
+    "        control_operation = np.asarray(control_operation, dtype=NpDtype)\n"))
+ok("C20", "Control.add_single copies at the store", _multi(
+    _sub(CT, "        control_operation = np.array(control_operation, dtype=NpDtype)\n", ""),
+    _sub(CT, "                self._step_controls[pre_post][time] = control_operation\n",
+         "                self._step_controls[pre_post][time] = control_operation.copy()\n"),
+    _sub(CT, "                self._time_controls[pre_post][time] = control_operation\n",
+         "                self._time_controls[pre_post][time] = np.array(control_operation)\n")))
 ok("C11", "Gibbs: remaining steps via a temporary", _sub(
     TE, "        num_step = max(\n            0, self._parameters.n_steps - 1 - self._backend_instance.step)",
     "        done = self._backend_instance.step\n        last = self._parameters.n_steps - 1\n        num_step = max(0, last - done)"))
